@@ -489,7 +489,7 @@ func boundedParts(w *World, prop, tier string, seed int, ev *Evidence, known []k
 	}
 	plen, ulen := 4, 5
 	if tier == "thorough" {
-		plen, ulen = 5, 6
+		plen, ulen = 5, 5
 	}
 	dir, _ := os.MkdirTemp("", "govc-bnd-")
 	defer os.RemoveAll(dir)
@@ -566,7 +566,7 @@ func boundedParts(w *World, prop, tier string, seed int, ev *Evidence, known []k
 		viols = append(viols, name)
 	}
 	ev.Level = "exploration"
-	ev.Coverage["bounded_parts"] = []string{fmt.Sprintf("bounded (NOT a proof): every basic pattern over the alphabet {a b . * ^ | /} up to length %d%s against every string over {a B . / :} up to length %d (patterns starting with || against 5 scheme/subdomain prefixes + every tail up to length %d), real NewNetworkRule / matchPattern / regexp engine", plen, map[bool]string{true: " and every regular-expression rule /re/ over {a b | . \\ d *} up to that length", false: ""}[prop == "C05"], ulen, ulen-2)}
+	ev.Coverage["bounded_parts"] = []string{fmt.Sprintf("bounded (NOT a proof): every basic pattern over {a b B . * ^ | /} up to length %d (with $match-case up to length %d) against every string over {a B . / :} up to length %d (patterns starting with || against 5 scheme/subdomain prefixes + every tail up to length %d); every pattern over the operator characters {a 2 { } + ? ( ) [ ] \\ .} up to length 3 against every string over them up to length 3%s; real NewNetworkRule / matchPattern / Match / regexp engine", plen, plen-1, ulen, ulen-2, map[bool]string{true: "; every regular-expression rule /re/ over {a b | . \\ d *} up to that length", false: ""}[prop == "C05"])}
 	ev.Coverage["evaluations"] = evals
 	ev.Coverage["distinct_nontrivial"] = nontriv
 	ev.Coverage["rule"] = "exhaustive enumeration of patterns and strings up to the stated lengths; a pattern counts as non-trivial when the compiled matcher accepts some but not all of the strings tried (counted by the harness)"
